@@ -8,6 +8,9 @@ default = sys.argv[2] if len(sys.argv) > 2 else None
 t = open(f).read()
 i = t.index("diff --git")
 msg = t[:i].strip() or default
+if msg.startswith("From ") and "Subject:" in msg:  # git format-patch header
+    import re
+    msg = default or re.sub(r"^\[PATCH[^\]]*\]\s*", "", re.sub(r"\s+", " ", msg.split("Subject:", 1)[1].split("---")[0]).strip())
 assert msg, "no commit message"
 r = subprocess.run(["git", "-C", "/repo", "apply", "--index", f], capture_output=True, text=True)
 if r.returncode != 0:
